@@ -165,6 +165,22 @@ def eval (W : World) (ρ : VStore) : VExpr → Store → VR
             match lift2 (binop W.P m) va vb with
             | none => none
             | some r => some (r, σ2)
+      | .land =>
+        match eval W ρ a σ with
+        | some (.sc (.b false), σ1) => some (.sc (.b false), σ1)
+        | some (.sc (.b true), σ1) =>
+          match eval W ρ b σ1 with
+          | some (.sc (.b r), σ2) => some (.sc (.b r), σ2)
+          | _ => none
+        | _ => none
+      | .lor =>
+        match eval W ρ a σ with
+        | some (.sc (.b true), σ1) => some (.sc (.b true), σ1)
+        | some (.sc (.b false), σ1) =>
+          match eval W ρ b σ1 with
+          | some (.sc (.b r), σ2) => some (.sc (.b r), σ2)
+          | _ => none
+        | _ => none
       | _ => none
     | _ => none
 /-- slots left to right, their components concatenated (`arity` is the static component count of the slot's type, see
@@ -215,6 +231,8 @@ def typeOf (sig : Sig) (vty : Var → Ty) (vvty : Var → VTy) : VExpr → Optio
       match irOpSem o, typeOf sig vty vvty a, typeOf sig vty vvty b with
       | .bin m, some ta, some tb =>
         if ta = tb ∧ (a.litlike && b.litlike) = false then (if m.isCmp then some (ta.withScalar .bool) else some ta) else none
+      | .land, some (.sc .bool), some (.sc .bool) => some (.sc .bool)
+      | .lor, some (.sc .bool), some (.sc .bool) => some (.sc .bool)
       | _, _, _ => none
     | _ => none
 /-- every slot is typed, has the constructor's scalar kind and as many components as its arity; total component count -/
@@ -331,6 +349,8 @@ def typeOf (sig : Sig) (env : VEnv) : VAExpr → Option VTy
       match vcommon ta tb with
       | none => none
       | some t => if m.isCmp then some (t.withScalar .bool) else some t
+    | .land, some (.sc _), some (.sc _) => some (.sc .bool)
+    | .lor, some (.sc _), some (.sc _) => some (.sc .bool)
     | _, _, _ => none
   | .tern c t f =>
     match typeOf sig env c, typeOf sig env t, typeOf sig env f with
@@ -419,6 +439,29 @@ def eval (W : World) (env : VEnv) (ρ : VStore) : VAExpr → Store → VR
               match lift2 (binop W.P m) va vb with
               | none => none
               | some r => some (r, σ2)
+      | _, _ => none
+    | .land =>
+      -- scalars only (HLSL 2021: `&&` short-circuits and does not accept vectors)
+      match typeOf W.sig env a, typeOf W.sig env b with
+      | some (.sc ta), some (.sc tb) =>
+        match vconvR W.P (.sc ta) (.sc .bool) (eval W env ρ a σ) with
+        | some (.sc (.b false), σ1) => some (.sc (.b false), σ1)
+        | some (.sc (.b true), σ1) =>
+          match vconvR W.P (.sc tb) (.sc .bool) (eval W env ρ b σ1) with
+          | some (.sc (.b r), σ2) => some (.sc (.b r), σ2)
+          | _ => none
+        | _ => none
+      | _, _ => none
+    | .lor =>
+      match typeOf W.sig env a, typeOf W.sig env b with
+      | some (.sc ta), some (.sc tb) =>
+        match vconvR W.P (.sc ta) (.sc .bool) (eval W env ρ a σ) with
+        | some (.sc (.b true), σ1) => some (.sc (.b true), σ1)
+        | some (.sc (.b false), σ1) =>
+          match vconvR W.P (.sc tb) (.sc .bool) (eval W env ρ b σ1) with
+          | some (.sc (.b r), σ2) => some (.sc (.b r), σ2)
+          | _ => none
+        | _ => none
       | _, _ => none
     | _ => none
 /-- constructor arguments left to right, each converted to scalar kind `k` in its own shape, components concatenated -/
